@@ -15,6 +15,7 @@ BAS = "seqm.basics"
 
 
 def task_species_order(ctx):
+    """check_input accepts a species row iff it is sorted in non-increasing atomic number (symbolic row next to a sorted one)."""
     fn = ctx.under_contract("seqm.Molecule:check_input")
     z = [integer("z%d" % i) for i in range(3)]
 
@@ -181,6 +182,7 @@ def task_solver_combinations(ctx):
 
 
 def task_excited_state_guards(ctx):
+    """an excited active state without excited-state settings, out-of-range initial states and UHF + excited states reach a raise before any result."""
     import seqm.basics as B
 
     # Energy.forward: excited active state without excited-state settings
@@ -243,6 +245,7 @@ def task_excited_state_guards(ctx):
 
 
 def task_com_mode_and_elements(ctx):
+    """unknown centre-of-mass removal modes and unsupported principal quantum numbers are rejected; accepted modes are exactly the documented ones."""
     from contracts import C13_initial_conditions as C13
 
     C13.task_dof(ctx)
